@@ -31,6 +31,18 @@ type setterOp struct {
 	// for CSwComps: 0 = nil slice, 1 = non-nil list (possibly empty),
 	// 2 = container.Add(list), 3 = container.Replace(list)
 	Mode int `json:"mode,omitempty"`
+	// SamePtr: the last two entries of the list (equal in content) are ONE
+	// component object listed twice
+	SamePtr bool `json:"same_object_twice,omitempty"`
+}
+
+// libList: the list handed to the library for o.Comps.
+func (o setterOp) libList() []psatoken.ISwComponent {
+	l := libComps(o.Comps)
+	if o.SamePtr && len(l) >= 2 {
+		l[len(l)-1] = l[len(l)-2]
+	}
+	return l
 }
 
 func (o setterOp) String() string {
@@ -177,7 +189,7 @@ func (o setterOp) apply(c psatoken.IClaims) (err error, applicable bool) {
 		case 0:
 			return c.SetSoftwareComponents(nil), true
 		case 1:
-			l := libComps(o.Comps)
+			l := o.libList()
 			if l == nil {
 				l = []psatoken.ISwComponent{}
 			}
@@ -188,9 +200,9 @@ func (o setterOp) apply(c psatoken.IClaims) (err error, applicable bool) {
 				return nil, false
 			}
 			if o.Mode == 2 {
-				return sc.Add(libComps(o.Comps)...), true
+				return sc.Add(o.libList()...), true
 			}
-			return sc.Replace(libComps(o.Comps)), true
+			return sc.Replace(o.libList()), true
 		}
 	}
 	panic("bad op")
@@ -790,6 +802,38 @@ func TestC11_Sweep(t *testing.T) {
 			}
 		}
 	}
+	// the setters an instance of a DERIVED profile inherits (the documented
+	// way to extend: embed the built-in claims, own profile name): each
+	// byte-string setter x lengths 0..80 accepts exactly what the base
+	// profile's rule - the one the same object's validation applies - accepts
+	for _, es := range extStyles {
+		for _, cl := range []Claim{CImplID, CBootSeed, CNonce, CInstID} {
+			for n := 0; n <= 80; n++ {
+				b := make([]byte, n)
+				for i := range b {
+					b[i] = byte(i + 1)
+				}
+				if cl == CInstID && n > 0 {
+					b[0] = 1
+				}
+				o := setterOp{Claim: cl, Bytes: b}
+				c := es.Impl.GetClaims()
+				err, _ := o.apply(c)
+				want := o.modelAccepts(es.Base)
+				st.Case(fmt.Sprintf("derived/%s/%s/%d", es.Label, cl, n), "derived-profile-setter")
+				if (err == nil) != want {
+					t.Fatalf("C11 violated: instance of the derived profile %q (style %s, on %s): %s = %v; the rule of its base profile, which its validation applies, says accept=%v", es.Name, es.Label, es.Base, o, err, want)
+				}
+				if want {
+					m2 := newModel(es.Base)
+					o.updateModel(m2, c)
+					if got := observeGetter(c, cl); got.Cls != EOK || got.Val != hexs(b) {
+						t.Fatalf("C11 violated: derived profile %q: after %s the getter gives %s", es.Name, o, got.Val)
+					}
+				}
+			}
+		}
+	}
 }
 
 func drawSetterOp(t *rapid.T, p Prof) setterOp {
@@ -883,6 +927,11 @@ func drawSetterOp(t *rapid.T, p Prof) setterOp {
 		if !valid && n > 0 {
 			i := rapid.IntRange(0, n-1).Draw(t, "sw.badidx")
 			o.Comps[i] = drawComp(t, false, "sw.bad")
+		}
+		if n > 0 && rapid.IntRange(0, 5).Draw(t, "sw.sameobject") == 0 {
+			// the last component once more - the very same object
+			o.Comps = append(o.Comps, o.Comps[n-1].Clone())
+			o.SamePtr = true
 		}
 	}
 	return o
